@@ -294,7 +294,7 @@ static void vf_do_delay(vf_rng_t *r, int strong)
 
 /* Debugging aid (VF_TRACE=1): per-thread rings of the library atomics seen by H1;
  * on a fatal signal the entries that touch the faulting thread's stack are printed. */
-#define VF_TR_N 8192
+#define VF_TR_N 65536
 typedef struct { uint64_t seq; const volatile void *addr; const char *func; uint64_t val; int line; short op, phase; int tid; } vf_tr_ent_t;
 typedef struct vf_tr_ring { vf_tr_ent_t e[VF_TR_N]; unsigned n; struct vf_tr_ring *next; int tid; } vf_tr_ring_t;
 static int g_trace;
